@@ -181,6 +181,24 @@ Proof.
   repeat split; try lia. f_equal; lia.
 Qed.
 
+Theorem window_spec (a : arr S) : nr a * nc a <> 1 ->
+  (forall h w, window a (Some (h, w)) None = pad2 a h w) /\
+  window a None None = Ok a /\
+  (forall r0 r1 c0 c1, 0 <= r0 <= r1 -> r1 <= nr a -> 0 <= c0 <= c1 -> c1 <= nc a ->
+     exists b, window a None (Some (r0, r1, c0, c1)) = Ok b /\ nr b = r1 - r0 /\ nc b = c1 - c0 /\
+       forall i j, get b i j = get a (i + r0) (j + c0)) /\
+  (forall h w r0 r1 c0 c1, (r1 - r0 <> h \/ c1 - c0 <> w) ->
+     window a (Some (h, w)) (Some (r0, r1, c0, c1)) = Err AssertionErr).
+Proof.
+  intros H. unfold window. replace (nr a * nc a =? 1) with false by lia. repeat split.
+  - intros r0 r1 c0 c1 H0 H1 H2 H3. eexists. split; [reflexivity|].
+    split; [|split]; [apply (np_slice_in_range a r0 r1 c0 c1 0 0); assumption
+                     | apply (np_slice_in_range a r0 r1 c0 c1 0 0); assumption |].
+    intros i j. apply (np_slice_in_range a r0 r1 c0 c1 i j); assumption.
+  - intros h w r0 r1 c0 c1 Hd. destruct (r1 - r0 =? h) eqn:E1; cbn [negb]; [|reflexivity].
+    destruct (c1 - c0 =? w) eqn:E2; cbn [negb]; [|reflexivity]. lia.
+Qed.
+
 (* ------------------------------------------------------------------ first / last *)
 Lemma first_from_spec k f : forall i,
   match first_from k i f with
